@@ -80,15 +80,15 @@ def rule_r1(chk, m):
              "entries that can both see a string of one length have disjoint languages; Frequency.from_sdmx_string tests length and fullmatch",
              floor=12)
     tab = m.assign("SDMX_REXP_FORMATS")
-    if not isinstance(tab, ast.Dict):
-        raise AnalysisError("SDMX_REXP_FORMATS is not a dict literal")
     chk.saw(m, "SDMX_REXP_FORMATS")
+    # the table by evaluation of the module-level constants (a literal, or built from rows / fragments)
+    consts = fin.module_constants(m, {f"Frequency.{k}": k for k in _freq_values(m)}, {"_re.compile": lambda p_, *a, **k: ("re", p_)})
+    table = consts.get("SDMX_REXP_FORMATS")
+    if not isinstance(table, dict) or not table or not all(isinstance(v, tuple) and len(v) == 2 and isinstance(v[1], tuple) and v[1][0] == "re" for v in table.values()):
+        raise AnalysisError("SDMX_REXP_FORMATS is not a table frequency -> (length, compiled pattern) built from constants")
     det = {}
-    for k, v in zip(tab.keys, tab.values):
-        fname = dotted(k).split(".")[-1]
-        length = literal(v.elts[0])
-        pat = eval_str(v.elts[1].args[0], {})
-        det[fname] = (length, pat, v)
+    for k, (length, (_, pat)) in table.items():
+        det[str(k)] = (length, pat, tab)
     dfas = {}
     for fname, (length, pat, node) in det.items():
         try:
@@ -133,9 +133,33 @@ def rule_r1(chk, m):
                    "disjoint" if wit is None else f"{wit!r} matches both {a} and {b}", m.loc(tab))
     f = m.func("Frequency.from_sdmx_string")
     chk.saw(m, "Frequency.from_sdmx_string")
-    src = unparse(f).replace(" ", "")
-    ok = "(lengthisNoneorlen(sdmx_string)==length)andpattern.fullmatch(sdmx_string)" in src and "SDMX_REXP_FORMATS.items()" in src
-    chk.ob("C11-R1", "dates.Frequency.from_sdmx_string", ok, "first entry whose length and full pattern match", m.loc(f))
+    # the detector by finite evaluation on a stand-in table: first entry (in table order) whose declared length (if any) and whole
+    # pattern match the stripped string; nothing matches -> an error
+    import re as _pyre
+
+    def _pat(p_):
+        return fin.FinObj(fullmatch=lambda s_, *a, _p=p_: _pyre.fullmatch(_p, s_), match=lambda s_, *a, _p=p_: _pyre.match(_p, s_),
+                          search=lambda s_, *a, _p=p_: _pyre.search(_p, s_), pattern=p_)
+    stand_in = {"F4": (4, _pat(r"\d{4}")), "F7a": (7, _pat(r"\d{4}-A\d")), "F7b": (7, _pat(r"\d{4}-\d\d")), "FANY": (None, _pat(r"\(\d+\)")),
+                "LATE4": (4, _pat(r"\d{4}"))}
+    cases = (("2020", "F4"), (" 2020 ", "F4"), ("2020-A1", "F7a"), ("2020-12", "F7b"), ("(12345678)", "FANY"), ("(7)", "FANY"),
+             ("2020-123", None), ("20201", None), ("2020-A12", None), ("x2020", None), ("", None))
+    bad = None
+    try:
+        helpers = fin.module_funcs(m, {"_wrongdoings.IrisPieCritical": lambda *a: ("error",) + a, "_wrongdoings.IrisPieError": lambda *a: ("error",) + a})
+        for text, want in cases:
+            try:
+                got = fin.run_function(f, {params(f)[0]: None, params(f)[1]: text} if len(params(f)) > 1 else {params(f)[0]: text}, helpers, {"SDMX_REXP_FORMATS": stand_in})
+            except fin.Raised:
+                got = None
+            if got != want:
+                bad = f"with the stand-in table {{F4: 4 digits, F7a/F7b: length 7, FANY: any length}}: {text!r} is detected as {got}, expected {want}"
+                break
+    except (fin.NotFinite, TypeError, AttributeError, KeyError) as ex:
+        chk.undecided("C11-R1", "dates.Frequency.from_sdmx_string", f"not finitely evaluable: {type(ex).__name__}: {ex}", m.loc(f))
+    else:
+        chk.ob("C11-R1", "dates.Frequency.from_sdmx_string", bad is None, bad or f"first entry whose length and full pattern match ({len(cases)} strings on a stand-in table)",
+               m.loc(f), sure=True)
 
 
 def rule_r2(chk, m):
@@ -335,8 +359,11 @@ def rule_r4(chk, m):
         chk.ob("C11-R4", f"dates.PERIOD_CLASS_FROM_FREQUENCY_RESOLUTION[{fname}]", got == fname,
                f"{fname} -> {cname} whose frequency is {got}", m.loc(v))
     det = m.assign("SDMX_REXP_FORMATS")
-    for k in det.keys:
-        fname = dotted(k).split(".")[-1]
+    consts = fin.module_constants(m, {f"Frequency.{k_}": k_ for k_ in _freq_values(m)}, {"_re.compile": lambda p_, *a, **k_: ("re", p_)})
+    if not isinstance(consts.get("SDMX_REXP_FORMATS"), dict):
+        raise AnalysisError("SDMX_REXP_FORMATS is not a table built from constants")
+    for fname in map(str, consts["SDMX_REXP_FORMATS"]):
+        k = det
         if fname == "WEEKLY":
             chk.note("SDMX_REXP_FORMATS has a WEEKLY pattern but there is no weekly period class (no writer; detection of a "
                      "weekly string ends in a KeyError, i.e. is rejected)")
